@@ -42,3 +42,32 @@ package ast
 //@   ensures (t.Card == ZeroOrMore || t.Card == ZeroOrMoreNG || t.Card == OneOrMore || t.Card == OneOrMoreNG) ==> (fresh(result.E) && (result.E.NonGreedy <==> (t.Card == ZeroOrMoreNG || t.Card == OneOrMoreNG)))
 //@   ensures t.Card == ZeroOrOne ==> fresh(result.E) && !result.E.NonGreedy
 //@   skip frame
+//
+// ---- terminals are numbered in declaration order (C19) ---------------------------------------
+//
+// An @external name becomes a terminal when, and only when, the CreateNames pass visits its
+// declaration: the traversal order of that one pass is the declaration order, so the terminal
+// takes the next dense index at its place among the token rules.
+//@ func validateTokenName
+//@   trusted
+//@   modifies nothing
+//
+//@ func Context.Position
+//@   trusted
+//@   modifies nothing
+//
+//@ func Context.RegisterName
+//@   requires !isnil(c) && !isnil(c.names) && !isnil(c.Errs)
+//@   ensures result == !old(has(c.names, name))
+//@   ensures !result ==> c.Errs.hasErrors
+//@   ensures result ==> c.Errs.hasErrors == old(c.Errs.hasErrors) && has(c.names, name) && c.names[name] == ast
+//@   ensures forall k string :: k != name ==> (has(c.names, k) <==> old(has(c.names, k))) && c.names[k] == old(c.names[k])
+//@   modifies c.names[*], c.Errs.hasErrors
+//
+//@ func ExternalName.RunPass
+//@   requires !isnil(n) && !isnil(ctx) && !isnil(ctx.names) && !isnil(ctx.Errs) && !isnil(ctx.Grammar) && lr1.denseTerminals(ctx.Grammar)
+//@   ensures pass != CreateNames ==> ctx.Grammar.Terminals == old(ctx.Grammar.Terminals) && unchanged(elems(*lr1.Terminal))
+//@   ensures pass == CreateNames && !ctx.Errs.hasErrors ==> len(ctx.Grammar.Terminals) == old(len(ctx.Grammar.Terminals)) + 1 && ctx.Grammar.Terminals[old(len(ctx.Grammar.Terminals))].Name == n.Name && ctx.Grammar.Terminals[old(len(ctx.Grammar.Terminals))].Index == old(len(ctx.Grammar.Terminals))
+//@   ensures forall k int :: {ctx.Grammar.Terminals[k]} 0 <= k && k < old(len(ctx.Grammar.Terminals)) ==> ctx.Grammar.Terminals[k] == old(ctx.Grammar.Terminals[k])
+//@   ensures lr1.denseTerminals(ctx.Grammar)
+//@   modifies ctx.names[*], ctx.Errs.hasErrors, ctx.Grammar.Terminals, elems(*lr1.Terminal)
